@@ -453,6 +453,8 @@ class Verdict:
         self.seed = seed
         self.t0 = time.time()
         self.violations = []          # (key, text, replay_path)
+        self._per_kind = {}
+        self._nfiles = 0
         self.known_hits = {}
         self.coverage = {'states': 0, 'transitions': 0, 'traces_validated_against_impl': 0,
                          'samples': [], 'evaluations': 0, 'distinct_nontrivial': 0, 'rule': ''}
@@ -487,8 +489,11 @@ class Verdict:
             if re.search(k['match'], key):
                 self.known_hits.setdefault(k['id'], (k, text))
                 return False
-        if len(self.violations) < 50:
-            path = os.path.join(REPLAY, f'{self.pid}-{len(self.violations)}.json')
+        kind = key.split(':', 1)[0]
+        self._per_kind[kind] = self._per_kind.get(kind, 0) + 1
+        if self._per_kind[kind] <= 8 and self._nfiles < 60:
+            path = os.path.join(REPLAY, f'{self.pid}-{self._nfiles}.json')
+            self._nfiles += 1
             with open(path, 'w') as f:
                 json.dump({'property': self.pid, 'key': key, 'text': text, 'case': case}, f, default=str, indent=1)
             self.violations.append((key, text, path))
@@ -514,6 +519,9 @@ class Verdict:
             print(f'VIOLATION property={self.pid} replay={path}')
             print(f'  {key}: {text}'[:600])
         cov = self.coverage
+        if self._per_kind:
+            cov['violations_by_kind'] = dict(self._per_kind)
+            print(f'  violations by kind: {self._per_kind}')
         if not cov['rule']:
             cov['rule'] = 'see DESIGN.md'
         cov.update(self.notes)
